@@ -126,6 +126,27 @@ def main():
                     break
             if fails:
                 break
+            # ---- back-fill: a later call writes an index below everything written so far; readers that already answered queries
+            #      must report it at once (C20: nothing about the channel is remembered between queries)
+            if model and min(model) > 1 and rnd.random() < 0.5:
+                kb_ = min(model) - rnd.choice([1, 1, 2, 7])
+                if kb_ > 0 and kb_ not in model:
+                    w.write(kb_, val_for(kb_, rnd))
+                    model[kb_] = val_for(kb_, rnd)
+                    lo, hi = min(model), max(model)
+                    for rname, r in [("new", dm.DigitalMetadataReader(mdir))] + ([("early", early)] if early is not None else []):
+                        cases += 1
+                        b = r.get_bounds()
+                        if tuple(int(x) for x in b) != (lo, hi):
+                            fails.append({"what": "%s reader after a back-fill write: get_bounds %s, written (%d, %d)" % (rname, b, lo, hi), "case": dict(tag, writes=writes, backfill=kb_)}); break
+                        got = r.read(kb_, kb_)
+                        if [int(x) for x in got] != [kb_]:
+                            fails.append({"what": "%s reader: read(k,k) of the back-filled sample %d returned %s" % (rname, kb_, list(got)), "case": dict(tag, writes=writes, backfill=kb_)}); break
+                        got = r.read(kb_ + 0, method="ffill")
+                        if [int(x) for x in got] != [kb_]:
+                            fails.append({"what": "%s reader: ffill read at the back-filled sample %d returned %s" % (rname, kb_, list(got)), "case": dict(tag, writes=writes, backfill=kb_)}); break
+                    if fails:
+                        break
             # ---- a read that names a missing column on files older than one cadence must not modify the tree (C20)
             r = dm.DigitalMetadataReader(mdir)
             if rnd.random() < 0.5:
